@@ -58,6 +58,7 @@ type Path struct {
 	End      string // ret panic backedge cut
 	Ret      []*T
 	Heap     map[string]*T // tracked memory facts at the end of the path
+	HeapLV   map[string]*T // ... and the storage each of them is about
 }
 
 type allocState struct {
@@ -230,7 +231,7 @@ func (e *Explorer) finish(s *pstate, start int, end string, ret []*T) {
 		e.Err = fmt.Errorf("path limit exceeded in %s", e.Fn.Name())
 		return
 	}
-	p := &Path{Fn: e.Fn, Start: start, Events: s.events, Conds: s.conds, Sets: s.sets, SetTerms: s.setT, Blocks: s.blocks, End: end, Ret: ret, Heap: s.heap}
+	p := &Path{Fn: e.Fn, Start: start, Events: s.events, Conds: s.conds, Sets: s.sets, SetTerms: s.setT, Blocks: s.blocks, End: end, Ret: ret, Heap: s.heap, HeapLV: s.heapLV}
 	e.paths = append(e.paths, p)
 }
 
@@ -348,7 +349,14 @@ func (e *Explorer) lvalue(s *pstate, addr ssa.Value) *T {
 		if fb, ok := freshBase(base); ok {
 			base = fb
 		}
-		return &T{Op: "elem", A: []*T{base, e.concrete(s, e.val(s, a.Index))}, Ty: elemType(a.X.Type())}
+		idx := e.concrete(s, e.val(s, a.Index))
+		// x[k:][i] is x[k+i]: the re-slice shares its storage
+		if base.Op == "slice" && len(base.A) == 4 && base.A[1].IsConst() && base.A[1].C > 0 && stripConv(idx).IsConst() {
+			if _, isSlice := base.A[0].Ty.Underlying().(*types.Slice); base.A[0].Ty != nil && isSlice {
+				return &T{Op: "elem", A: []*T{base.A[0], tconst(base.A[1].C+stripConv(idx).C, idx.Ty)}, Ty: elemType(a.X.Type())}
+			}
+		}
+		return &T{Op: "elem", A: []*T{base, idx}, Ty: elemType(a.X.Type())}
 	case *ssa.Global:
 		return &T{Op: "global", S: a.Name(), Ty: a.Type().(*types.Pointer).Elem()}
 	}
@@ -448,6 +456,14 @@ func (e *Explorer) load(s *pstate, addr ssa.Value, ty types.Type) *T {
 			for hk, hl := range s.heapLV {
 				if hk != lv.Key() && lvInside(hl, lv) {
 					snap = append(snap, arrEntry{hl, s.heap[hk]})
+				}
+			}
+			// ... or a table the package initialiser filled
+			if len(snap) == 0 && e.Fn.Synthetic == "" && e.W.initialised(lv) {
+				for hk, hl := range e.W.globalInitLV {
+					if hk != lv.Key() && lvInside(hl, lv) {
+						snap = append(snap, arrEntry{hl, e.W.globalInit[hk]})
+					}
 				}
 			}
 			if len(snap) > 0 {
@@ -936,6 +952,21 @@ func (e *Explorer) runFrom(b *ssa.BasicBlock, pred int, from int, s *pstate, sta
 				s.regs[in] = e.val(s, in.X) // promoted fields: select them from the outer value
 			}
 		case *ssa.Index:
+			// an element of an array value whose elements were known when it was copied
+			if av := e.val(s, in.X); av.Op == "arrayval" {
+				if idx := stripConv(e.concrete(s, e.val(s, in.Index))); idx.IsConst() {
+					var hit *T
+					for _, en := range e.arrays[av.C] {
+						if en.lv.Op == "elem" && en.lv.A[0].Key() == av.A[0].Key() && stripConv(en.lv.A[1]).IsConstVal(idx.C) {
+							hit = en.val
+						}
+					}
+					if hit != nil {
+						s.regs[in] = hit
+						continue
+					}
+				}
+			}
 			// a constant string indexed by a value of an enumerated type is a table
 			if str := e.val(s, in.X); str.Op == "str" {
 				idx := stripConv(e.concrete(s, e.val(s, in.Index)))
@@ -1606,6 +1637,21 @@ func (e *Explorer) callEvent(s *pstate, kind string, in ssa.Instruction, c *ssa.
 	if kind == "call" && v != nil && e.modelBuilder(s, &ev, v) {
 		s.events = append(s.events, ev)
 		return
+	}
+	// strings.ToLower / ToUpper of a constant is a constant
+	if kind == "call" && v != nil && ev.Callee != nil && ev.Callee.Pkg != nil && ev.Callee.Pkg.Pkg.Path() == "strings" && len(args) == 1 && args[0].Op == "str" {
+		var r *T
+		switch ev.Callee.Name() {
+		case "ToLower":
+			r = tstr(strings.ToLower(args[0].S))
+		case "ToUpper":
+			r = tstr(strings.ToUpper(args[0].S))
+		}
+		if r != nil {
+			ev.Res, s.regs[v] = r, r
+			s.events = append(s.events, ev)
+			return
+		}
 	}
 	if kind == "call" && v != nil && e.modelContains(s, &ev, v) {
 		s.events = append(s.events, ev)
